@@ -30,7 +30,7 @@ inductive Err
 inductive Res | ok | raised (e : Err)
   deriving Repr, DecidableEq
 
-inductive Val | int (n : Int) | tup (l : List Int)
+inductive Val | int (n : Int) | tup (l : List Int) | nest (l : List (List Int))   -- an int, a tuple of ints, a tuple of tuples
   deriving Repr, DecidableEq
 
 /-- a source parameter: (object, parameter) -/
@@ -47,9 +47,10 @@ inductive Atom
 inductive Rhs
   | atom (a : Atom)
   | cont (items : List Atom)                       -- a tuple of atoms
+  | cont2 (rows : List (List Atom))                -- a tuple of tuples of atoms (nesting depth 2)
   deriving Repr, DecidableEq
 
-inductive Kind | int | pair
+inductive Kind | int | pair | any      -- param.Integer | param.Range | param.Parameter (no validation)
   deriving Repr, DecidableEq
 
 structure PDecl where
@@ -115,8 +116,9 @@ def PDecl.inB (d : PDecl) (n : Int) : Bool :=
 
 /-- `_validate`: Integer accepts an int inside the bounds; Range a pair of numbers inside the bounds -/
 def PDecl.valid (d : PDecl) : Val → Bool
-  | .int n => d.kind == .int && d.inB n
-  | .tup l => d.kind == .pair && l.length == 2 && l.all d.inB
+  | .int n => d.kind == .any || (d.kind == .int && d.inB n)
+  | .tup l => d.kind == .any || (d.kind == .pair && l.length == 2 && l.all d.inB)
+  | .nest _ => d.kind == .any
 
 /-- `val is _old` of the constant guard: equal small ints are the same object, a tuple never is -/
 def identical : Val → Val → Bool
@@ -152,16 +154,19 @@ def Atom.supported : Atom → Bool
 def Rhs.supported : Rhs → Bool
   | .atom a => a.supported
   | .cont items => items.all Atom.supported
+  | .cont2 rows => rows.all (·.all Atom.supported)
 
 def Rhs.isLit : Rhs → Bool
   | .atom a => a.isLit
   | .cont items => items.all Atom.isLit
+  | .cont2 rows => rows.all (·.all Atom.isLit)
 
 /-- src: parameterized.py resolve_ref(reference, recursive) -/
 def depsOf (r : Rhs) (nested : Bool) : List SrcP :=
   match r with
   | .atom a => a.deps
   | .cont items => if nested then items.flatMap Atom.deps else []
+  | .cont2 rows => if nested then rows.flatMap (·.flatMap Atom.deps) else []
 
 def resolveAtom (c : Cfg) (w : World) : Atom → Option Int
   | .lit n => some n
@@ -177,6 +182,7 @@ def plainOf : Rhs → Option Val
   | .atom (.lit n) => some (.int n)
   | .atom _ => none
   | .cont items => (items.mapM Atom.litVal).map .tup
+  | .cont2 rows => (rows.mapM (fun (row : List Atom) => row.mapM Atom.litVal)).map .nest
 
 /-- src: parameterized.py resolve_value(value, recursive); `none`: a source does not exist, or
 (container, not recursive) the value is returned as it is and holds an unresolved object -/
@@ -184,6 +190,8 @@ def resolveRhs (c : Cfg) (w : World) (r : Rhs) (nested : Bool) : Option Val :=
   match r with
   | .atom a => (resolveAtom c w a).map .int
   | .cont items => if nested then (items.mapM (resolveAtom c w)).map .tup else plainOf r
+  -- `resolve_value` recurses: the inner tuples are resolved by the recursive calls (default `recursive=True`)
+  | .cont2 rows => if nested then (rows.mapM (fun (row : List Atom) => row.mapM (resolveAtom c w))).map .nest else plainOf r
 
 /-- does evaluating the atom raise `Skip` on the current source values -/
 def Atom.skips (c : Cfg) (w : World) : Atom → Bool
@@ -199,10 +207,12 @@ def skipsRhs (c : Cfg) (w : World) (r : Rhs) (nested : Bool) : Bool :=
   match r with
   | .atom a => a.skips c w
   | .cont items => nested && items.any (Atom.skips c w)
+  | .cont2 rows => nested && rows.any (·.any (Atom.skips c w))
 
 def Val.toRhs : Val → Rhs
   | .int n => .atom (.lit n)
   | .tup l => .cont (l.map Atom.lit)
+  | .nest l => .cont2 (l.map (·.map Atom.lit))
 
 /-! ### dict helpers -/
 
@@ -503,7 +513,11 @@ are resolved (an `allow_refs` parameter on the instance route — elsewhere a ca
 for a Dynamic value and a Parameter object at class level *redefines* the parameter) -/
 def keySupported (c : Cfg) (t : Nat) (kv : Nat × Rhs) : Bool :=
   match c.decl t kv.1 with
-  | some d => kv.2.supported && (d.allowRefs || kv.2.isLit)
+  | some d =>
+    kv.2.supported && (d.allowRefs || kv.2.isLit) &&
+    -- an unvalidated parameter (`param.Parameter`) would *store* a container that still holds unresolved
+    -- reference objects: outside the value universe of the model
+    (d.kind != .any || kv.2.isLit || !(depsOf kv.2 d.nestedRefs).isEmpty)
   | none => kv.2.isLit           -- unknown key: rejected before the value is looked at
 
 def Op.supported (c : Cfg) : Op → Bool
